@@ -207,6 +207,7 @@ FilterRef(f, v, a) ==
 
 \* widthratio value max width: round(value / max * width) to the nearest integer (an exact half either way: flagged)
 WidthRatio(v, m, w) ==
+  IF m = 0 THEN [lo |-> 0, hi |-> 0] ELSE      \* (no ratio to a maximum of 0: the reference prints 0)
   LET num == AbsI(v * w) IN LET q == num \div m r == num % m IN
   LET lo == IF 2 * r > m THEN q + 1 ELSE q  hi == IF 2 * r >= m THEN q + 1 ELSE q IN
   \* (a negative ratio rounds like its absolute value, away from zero at a half)
